@@ -26,6 +26,7 @@
  *   LK<n>                          heap blocks still live after release + the application freeing what it owns
  */
 #include <stdio.h>
+#include <stdarg.h>
 #include <stdlib.h>
 #include <string.h>
 #include <stdint.h>
@@ -76,7 +77,35 @@ static of_status_t set_params(of_session_t *ses, int codec, UINT32 k, UINT32 r, 
 	{ of_2d_parity_parameters_t p; memset(&p, 0, sizeof p); p.nb_source_symbols = k; p.nb_repair_symbols = r; p.encoding_symbol_length = L; return of_set_fec_parameters(ses, (of_parameters_t *)&p); }
 }
 
-static void print_masks(of_session_t *dec, int codec, UINT32 k, UINT32 n)
+/* digest of the decoder's internal state (LDPC / 2D sessions): FNV-1a 64 over a canonical text - per equation the number of unknown
+ * symbols, the remaining degree, the partial sum (- when none) and the remaining entries; the two ready-counters; per repair symbol
+ * the number of equations it is still in.  ocaml/driver.ml computes the same text from the model's state. */
+static unsigned long long dg_h;
+static void dg(const char *fmt, ...)
+{
+	char buf[64]; int i, m; va_list ap;
+	va_start(ap, fmt); m = vsnprintf(buf, sizeof buf, fmt, ap); va_end(ap);
+	for (i = 0; i < m; i++) { dg_h ^= (unsigned char)buf[i]; dg_h *= 0x100000001b3ULL; }
+}
+static unsigned long long state_digest(of_linear_binary_code_cb_t *cb)
+{
+	UINT32 row, j; of_mod2entry *e;
+	dg_h = 0xcbf29ce484222325ULL;
+	for (row = 0; row < cb->nb_repair_symbols; row++) {
+		int first = 1;
+		dg("u%d e%d c", (int)cb->tab_nb_unknown_symbols[row], (int)cb->tab_nb_enc_symbols_per_equ[row]);
+		if (!cb->tab_const_term_of_equ[row]) dg("-");
+		else for (j = 0; j < cb->encoding_symbol_length; j++) dg("%02x", ((unsigned char *)cb->tab_const_term_of_equ[row])[j]);
+		dg(" m");
+		for (e = of_mod2sparse_first_in_row(cb->pchk_matrix, row); !of_mod2sparse_at_end(e); e = of_mod2sparse_next_in_row(e)) { dg(first ? "%d" : ",%d", (int)e->col); first = 0; }
+		dg(";");
+	}
+	dg("S%d R%d|", (int)cb->nb_source_symbol_ready, (int)cb->nb_repair_symbol_ready);
+	for (j = 0; j < cb->nb_repair_symbols; j++) dg("q%d,", (int)cb->tab_nb_equ_for_repair[j]);
+	return dg_h;
+}
+
+static void print_masks(of_session_t *dec, int codec, UINT32 k, UINT32 n, int with_digest)
 {
 	UINT32 i;
 	memset(src_tab, 0, sizeof(void *) * k);
@@ -87,6 +116,7 @@ static void print_masks(of_session_t *dec, int codec, UINT32 k, UINT32 n)
 	if (codec == 3 || codec == 5) {
 		of_linear_binary_code_cb_t *cb = (of_linear_binary_code_cb_t *)dec;
 		for (i = k; i < n; i++) fputc(cb->encoding_symbols_tab[i] ? '1' : '0', out);
+		if (with_digest) fprintf(out, ":%016llx", state_digest(cb));
 	} else fprintf(out, "-");
 }
 
@@ -161,13 +191,13 @@ int main(void)
 				for (i = 0; i < (UINT32)nesi; i++) {
 					st = of_decode_with_new_symbol(dec, recv_tab[esis[i]], esis[i]);
 					fprintf(out, " S%d%d", st, of_is_decoding_complete(dec) ? 1 : 0);
-					print_masks(dec, codec, k, n);
+					print_masks(dec, codec, k, n, 1);
 				}
 			} else {
 				for (i = 0; i < (UINT32)nesi; i++) avail_tab[esis[i]] = recv_tab[esis[i]];
 				st = of_set_available_symbols(dec, avail_tab);
 				fprintf(out, " S%d%d", st, of_is_decoding_complete(dec) ? 1 : 0);
-				print_masks(dec, codec, k, n);
+				print_masks(dec, codec, k, n, 1);
 			}
 			if (finish) {
 				if (codec == 3 || codec == 5) {
@@ -183,7 +213,7 @@ int main(void)
 				}
 				st = of_finish_decoding(dec);
 				fprintf(out, " F%d%d", st, of_is_decoding_complete(dec) ? 1 : 0);
-				print_masks(dec, codec, k, n);
+				print_masks(dec, codec, k, n, 0);
 			}
 			/* ---------------- verdict on the source table ---------------- */
 			memset(src_tab, 0, sizeof(void *) * k);
